@@ -190,6 +190,29 @@ def run (c : Cfg K P) (self : Nat) (ops : List (Op K P)) : State K P :=
 
 end generic
 
+/-! ## Atomic steps
+
+  The theorems treat every table method as one atomic step.  `tools/lockshape.go` prints, per
+  method, how often it acquires the mutex and under which lock it touches the route map / calls
+  sibling methods; `stepsAtomic` is the granularity the proofs need, checked by `decide` on the
+  regenerated facts (MM/Props/C08Lock.lean, C09Lock.lean, C10Lock.lean). -/
+
+/-- every mutating method acquires the lock exactly once and touches the guarded maps / calls its
+    helpers only under the write lock; every reading method acquires it exactly once and reads
+    under the read or write lock -/
+def stepsAtomic (acq : List (String × Nat)) (acc : List (String × String × Bool × String))
+    (calls : List (String × String × String)) (mutators readers : List String) : Bool :=
+  mutators.all (fun m => acq.lookup m == some 1) &&
+  readers.all (fun m => acq.lookup m == some 1) &&
+  acc.all (fun a =>
+    if mutators.contains a.1 then a.2.2.2 == "W"
+    else if readers.contains a.1 then (a.2.2.2 == "R" || a.2.2.2 == "W") && !a.2.2.1
+    else true) &&
+  calls.all (fun c =>
+    if mutators.contains c.1 then c.2.2 == "W"
+    else if readers.contains c.1 then c.2.2 == "R" || c.2.2 == "W"
+    else true)
+
 /-! ## CIDR table (`routing.Table`) -/
 
 /-- A `*net.IPNet` as the table receives it: `IP` of `len` bytes with big-endian value `addr`,
